@@ -11,9 +11,9 @@ R-UNDO-SELF : a field of the operation record written by only one of undo/redo m
               trip (two snapshots swapped instead of cloned).
 R-UNDO-ORDER: an operation that replays a list of sub-operations (calls UndoOperation::undo / redo on the elements of a
               collection inside a loop) walks the list backwards in undo and forwards in redo.
-R-UNDO-GUARD: the lock- / visibility-guarded mutators of `Layer` (methods that read `properties.is_locked`, `is_visible`,
-              `is_position_locked` or `is_alpha_channel_locked` and write the layer) reachable from `undo` are the same as those
-              reachable from `redo`: if only one direction goes through a setter that silently does nothing on a locked or
+R-UNDO-GUARD: the lock / visibility flags (`properties.is_locked`, `is_visible`, `is_position_locked`,
+              `is_alpha_channel_locked`) read by the guarded mutators of `Layer` reachable from `undo` are the same as those read
+              by the ones reachable from `redo`: if only one direction goes through a setter that silently does nothing on a locked or
               hidden layer, the two are not inverse on such a layer (the property quantifies over hidden and locked layers).
 R-PUSH      : push_plain_undo clears the redo stack on every path that pushes; begin_typed_atomic_undo clears it
               unconditionally; push_undo_action applies the operation (redo) before recording it; UndoState::undo / redo move
@@ -302,9 +302,14 @@ def undo_order(chk, f, impls):
 GUARD_FLAGS = {"is_locked", "is_visible", "is_position_locked", "is_alpha_channel_locked"}
 
 
-def _reads_guard_flag(b):
+def _guard_flags_read(b):
+    """the lock / visibility flags of layer::Properties the body reads"""
+    out = set()
+
     def has(pj):
-        return any(el != "*" and el[0] == "f" and el[2] in GUARD_FLAGS and "Properties" in str(el[3]) for el in (pj.get("p") or ()))
+        for el in (pj.get("p") or ()):
+            if el != "*" and el[0] == "f" and el[2] in GUARD_FLAGS and "Properties" in str(el[3]):
+                out.add(el[2])
     for bi, k, s in b.stmts():
         if s["k"] != "assign":
             continue
@@ -313,44 +318,49 @@ def _reads_guard_flag(b):
             o = rv.get(key)
             if isinstance(o, dict):
                 pj = o.get("copy") or o.get("move")
-                if pj is not None and has(pj):
-                    return True
-        if rv["k"] in ("ref", "discr", "len") and isinstance(rv.get("p"), dict) and has(rv["p"]):
-            return True
+                if pj is not None:
+                    has(pj)
+        if rv["k"] in ("ref", "discr", "len") and isinstance(rv.get("p"), dict):
+            has(rv["p"])
     for bi, blk in enumerate(b.blocks):
         t = blk["term"]
         if t["k"] == "switch":
             pj = t["discr"].get("copy") or t["discr"].get("move")
-            if pj is not None and has(pj):
-                return True
-    return False
+            if pj is not None:
+                has(pj)
+    return out
 
 
 def undo_guard(chk, f, g, eff, impls):
-    guarded = set()
+    guarded = {}
     for bid, b in f.bodies.items():
         if b.kind != "method" or b.impl_trait or not (b.impl_self_s or "").endswith("layer::Layer"):
             continue
-        if not b.tys(1).startswith("&mut ") if b.argc >= 1 else True:
+        if b.argc < 1 or not b.tys(1).startswith("&mut "):
             continue
-        if _reads_guard_flag(b) and eff.W.get(bid, {}).get(1):
-            guarded.add(bid)
+        fl = _guard_flags_read(b)
+        if fl and eff.W.get(bid, {}).get(1):
+            guarded[bid] = fl
     chk.floor("R-UNDO-GUARD", "guarded Layer mutators", len(guarded), 4)
     n = 0
     for ty, d in sorted(impls.items()):
         if len(d) != 2:
             continue
         short = ty.split("::")[-1]
-        gu = set(g.reachable([d["undo"]])) & guarded
-        gr = set(g.reachable([d["redo"]])) & guarded
+        gu = set(g.reachable([d["undo"]])) & set(guarded)
+        gr = set(g.reachable([d["redo"]])) & set(guarded)
+        fu = set().union(*[guarded[x] for x in gu]) if gu else set()
+        fr = set().union(*[guarded[x] for x in gr]) if gr else set()
         n += 1
-        ok = gu == gr
+        # what matters is under which flags a direction silently does nothing, not through which setter
+        ok = fu == fr
         chk.obligation(ok)
         if not ok:
             ub = f.bodies[d["undo"]]
-            for x in sorted(gu ^ gr):
-                side = "undo" if x in gu else "redo"
-                chk.finding("%s|guard|%s|%s-only" % (short, f.bodies[x].name, side), rule="R-UNDO-GUARD", where="%s:%s" % (ub.file, f.bodies[d[side]].line), fn="%s::%s" % (short, side),
-                            what="%s::%s goes through Layer::%s, which does nothing on a locked / hidden layer, and %s::%s does not: on such a layer the two directions are not inverse" % (
-                                short, side, f.bodies[x].name, short, "redo" if side == "undo" else "undo"))
+            for fl in sorted(fu ^ fr):
+                side = "undo" if fl in fu else "redo"
+                via = sorted(f.bodies[x].name for x in (gu if side == "undo" else gr) if fl in guarded[x])
+                chk.finding("%s|guard|%s|%s-only" % (short, fl, side), rule="R-UNDO-GUARD", where="%s:%s" % (ub.file, f.bodies[d[side]].line), fn="%s::%s" % (short, side),
+                            what="%s::%s goes through Layer::%s, which does nothing depending on properties.%s, and %s::%s has no such dependence: on such a layer the two directions are not inverse" % (
+                                short, side, "/".join(via), fl, short, "redo" if side == "undo" else "undo"))
     chk.floor("R-UNDO-GUARD", "operations compared", n, 44)
